@@ -125,6 +125,7 @@ template <class Tr> struct Harness {
         };
         auto Acrs = to_crs<V>(A);
         double K = kappa1, nB1 = 1, eta = 0; size_t levels = 1; bool precond_finite = true;
+        CMat Mop; // operator of the recursions: A B (right) or B A (left)
         // relative accuracy of one preconditioner application (linearity defect, see c01_truth.cpp)
         auto probe = [&](const auto &P0, const CMat &Bm) {
             std::vector<R> v3(n), y(n), y3(n);
@@ -141,6 +142,7 @@ template <class Tr> struct Harness {
             else { amgcl::relaxation::as_preconditioner<BE, amgcl::runtime::relaxation::wrapper> P0(*Acrs, pp); Bm = extract(P0, n); if (finite(Bm)) probe(P0, Bm); }
             if (!finite(Bm)) precond_finite = false;
             if (finite(Bm)) {
+                Mop = sc.is_left() ? CMat(Bm * D) : CMat(D * Bm);
                 CMat AB = D * Bm; Eigen::PartialPivLU<CMat> lab(AB); CMat ABi = lab.inverse();
                 nB1 = norm1(Bm);
                 K = std::max(K, norm1(D) * nB1 * std::max(1.0, finite(ABi) ? norm1(ABi) : std::numeric_limits<double>::infinity()));
@@ -190,14 +192,34 @@ template <class Tr> struct Harness {
         double allow = 200.0 * ueff * K * (iters + 2.0) * Gh * unit * (left ? 4.0 : 1.0) + 64.0 * U; // left: the reference residual is formed in double
         c.label(reported < sc.tol ? "converged" : "not-converged");
         if (env_flag("VF_C01_TRACE")) std::cerr << "TRACE diff/allow=" << (diff - 0.01 * big) / allow << " K=" << K << " iters=" << iters << " " << sc.str() << "\n";
-        bool gap_region = sc.type == IDRS || sc.type == BICGSTABL; // F-recursion-gap, see c01_truth.cpp
-        bool strict_a = diff <= 0.01 * big + allow;
-        bool strict_b = !(reported < sc.tol) || !(allow <= 0.06 * sc.tol) || truth < 1.1 * sc.tol;
-        if (gap_region && (!strict_a || !strict_b)) {
-            // no peak evaluation here: the factor also has to cover residual peaks inside the history
-            VF_REQUIRE(big <= 1e-3 * Gh * unit || diff <= 0.01 * big + 1e4 * allow, solver_name[sc.type] << ": reported residual " << reported << " but true relative residual is " << truth << " (1e4 x allowance " << 1e4 * allow << ")");
-            c.label("recursion-gap"); if (c.known("F-recursion-gap")) return;
+        // Known finding F-recursion-gap (see c01_truth.cpp): BiCGStab(L) / IDR(s) runs that perform at least as many products as the
+        // numerical grade of (M, r0), M = A B resp. B A.  Class of inputs; nothing but the iteration budget is asserted inside.
+        if (sc.type == IDRS || sc.type == BICGSTABL) {
+            size_t matvecs = sc.type == BICGSTABL ? 2 * iters : iters + iters / std::max(1u, sc.s) + 1;
+            CVec r0v = fv - D * x0v;
+            if (left) { std::vector<R> rr = pack(r0v), z(n); for (ptrdiff_t i = 0; i < n; ++i) for (int a = 0; a < B; ++a) Tr::set(z[i], a, cplx(0)); if (amg_class) sa->precond().apply(rr, z); else sr->precond().apply(rr, z); std::vector<cplx> ze = expand(z); for (ptrdiff_t i = 0; i < N; ++i) r0v[i] = ze[i]; }
+            size_t grade = numerical_grade(Mop, r0v, matvecs, 1e-6);
+            c.label(matvecs >= grade ? "krylov:exhausted" : "krylov:not-exhausted");
+            if (matvecs >= grade) { c.desc << " | F-recursion-gap: " << matvecs << " products, numerical grade " << grade; if (c.known("F-recursion-gap")) return; }
         }
+        if (diff > 0.01 * big + allow && iters >= 2) {
+            // largest residual of the history from truncated re-runs (see c01_truth.cpp), evaluated only when the plain bound fails
+            double peak = Gh;
+            for (size_t k = 1; k < iters; ++k) {
+                SolverCfg sk = sc; sk.maxiter = static_cast<unsigned>(k); sk.smoothing = false;
+                ptree pk; sk.put(pk, "solver"); put_precond(pk, "precond");
+                std::vector<R> y = x0; size_t ik; double rk;
+                try {
+                    std::shared_ptr<amgcl::backend::crs<V>> A2k; if (other) A2k = to_crs<V>(A2);
+                    if (amg_class) { AmgSolver s2(*Acrs, pk); std::tie(ik, rk) = other ? s2(*A2k, f, y) : s2(f, y); }
+                    else { RelSolver s2(*Acrs, pk); std::tie(ik, rk) = other ? s2(*A2k, f, y) : s2(f, y); }
+                } catch (const std::runtime_error &) { continue; }
+                if (std::isfinite(rk)) peak = std::max(peak, rk / unit);
+            }
+            c.label(bucket(peak / Gh, {2, 100, 1e4}, "peak/G"));
+            allow = 200.0 * ueff * K * (iters + 2.0) * peak * unit * (left ? 4.0 : 1.0) + 64.0 * U;
+        }
+        bool strict_a = diff <= 0.01 * big + allow;
         VF_REQUIRE(strict_a, "reported residual " << std::setprecision(10) << reported << " but true " << (left ? "preconditioned " : "") << "relative residual is " << truth
                    << " (difference " << diff << ", allowance " << 0.01 * big + allow << ", iters " << iters << ")");
         if (reported < sc.tol) {
